@@ -53,6 +53,34 @@ def strip_boolconv(e):
     return e, neg
 
 
+def bool_split(func):
+    """a bool helper's `return <expr>;` with a non-constant expression is read as `if (<expr>) return true; else return
+    false;` so that the caller's branch on the helper's result stays correlated with the conditions tested inside"""
+    if func.get("ret") != "bool" or func.get("body") is None:
+        return func
+
+    def rec(st):
+        if isinstance(st, list):
+            return [rec(x) for x in st]
+        if not isinstance(st, dict):
+            return st
+        k = st.get("k")
+        if k == "return" and st.get("e") is not None and truth_of(st["e"]) is None:
+            return {"k": "if", "l": st.get("l"), "c": st["e"],
+                    "then": {"k": "return", "l": st.get("l"), "e": {"k": "bool", "v": True}},
+                    "else": {"k": "return", "l": st.get("l"), "e": {"k": "bool", "v": False}}}
+        if k in ("block", "if", "while", "for", "do", "switch", "case", "default", "try", "rfor", "label"):
+            out = dict(st)
+            for key in ("s", "then", "else", "body", "sub", "handlers"):
+                if key in out and isinstance(out[key], (dict, list)):
+                    out[key] = rec(out[key])
+            return out
+        return st
+    out = dict(func)
+    out["body"] = rec(func["body"])
+    return out
+
+
 class Inliner:
     def __init__(self, prog, want, maxdepth=4):
         """want(call_node, caller_func) -> callee function dict or None"""
@@ -102,7 +130,7 @@ class Inliner:
         return out
 
     def splice(self, g, n, call, callee, func, depth, stack):
-        sub = self.build(callee, depth + 1, stack + (func["fid"],))
+        sub = self.build(bool_split(callee), depth + 1, stack + (func["fid"],))
         self.inlined.append((func["q"], callee["q"], call.get("l")))
         off = len(g.nodes)
         for m in sub.nodes:
